@@ -55,6 +55,9 @@ def gen_c14(seed, n, tier):
             "gaps": [0, 0, 1, 500, 1000, 1000, 5000, 20000],
             "event_processing": (i % 2 == 0),
         }
+        if i % 5 == 4:
+            # an event of four or five markets with unequal update densities (the merge front holds more than three streams)
+            rnd_prof.update({"n_markets": (4, 5), "n_updates": (2, 12), "event_processing": True, "gaps": [0, 1, 200, 500, 1000, 3000, 7000, 20000]})
         g = Gen(seed * 7919 + i, rnd_prof)
         scn = g.scenario("m%d" % i)
         rnd = g.rnd
@@ -110,6 +113,9 @@ def check_c14(tier, seed):
     t0 = time.time()
     designs = [
         {"module": "MC_EventMerge", "constants": {"Names": '{"s1", "s2", "s3"}', "Times": "{1, 2, 3}", "N": "3", "Mode": '"merge"'},
+         "invariants": ["Inv_MergeSorted", "Inv_PerMarketOrderKeptExactlyOnce", "Inv_Count"]},
+        # four streams (the merge front holds more entries than a three-slot insertion can place)
+        {"module": "MC_EventMerge", "constants": {"Names": '{"s1", "s2", "s3", "s4"}', "Times": "{1, 2, 3}", "N": "2", "Mode": '"merge"'},
          "invariants": ["Inv_MergeSorted", "Inv_PerMarketOrderKeptExactlyOnce", "Inv_Count"]},
         {"module": "MC_EventMerge", "constants": {"Names": '{"s1"}', "Times": "{1, 2, 3}", "N": "3", "Mode": '"filter"'},
          "invariants": ["Inv_FilterSubsequence", "Inv_NoFilterDeliversAll", "Inv_ClosedAlwaysDelivered"]},
